@@ -188,38 +188,46 @@ theorem w_iw_cases (c : K) (I : Fin 6) : (w c I = 1 ∧ iw c I = 1) ∨ (w c I =
   fin_cases I <;> simp [w, iw]
 
 /-- matrix-valued representation lemmas: the row `I` and the column `J` stay symbolic, only their kind
-(diagonal / shear) is split -/
-macro "rep_mat" h:term : tactic =>
+(diagonal / shear) is split when they are symmetric rows (`rep_mat_SS`: both, `rep_mat_ST`: the row,
+`rep_mat_TS`: the column, `rep_mat_TT`: none) -/
+macro "rep_start" h:term : tactic =>
   `(tactic| (
-      funext I J
       simp only [T4.stoST, T4.stoTT, T4.stoTS, T4.stoS2T, T4.ofST, T4.ofTT, T4.ofTS, T4.ofS2T, T2.ofTens, T2.ofSt,
         T4.comp, T4.transpose, T2.dyad, vi_pS, ti_pT, iw2_eq $h h2, w2_eq $h, sum3, sumS, sumT]
-      simp only [vi, ti]
-      first
-        | ring1
-        | (rcases w_iw_cases c I with ⟨e1, e2⟩ | ⟨e1, e2⟩ <;> rcases w_iw_cases c J with ⟨f1, f2⟩ | ⟨f1, f2⟩ <;>
-             simp only [e1, e2, f1, f2, (w_lit c).1, (w_lit c).2.1, (w_lit c).2.2.1, (w_lit c).2.2.2.1, (w_lit c).2.2.2.2.1, (w_lit c).2.2.2.2.2, (iw_lit c).1, (iw_lit c).2.1, (iw_lit c).2.2.1, (iw_lit c).2.2.2.1, (iw_lit c).2.2.2.2.1, (iw_lit c).2.2.2.2.2] <;> (first | ring1 | mandel_ring $h))
-        | (rcases w_iw_cases c I with ⟨e1, e2⟩ | ⟨e1, e2⟩ <;>
-             simp only [e1, e2, (w_lit c).1, (w_lit c).2.1, (w_lit c).2.2.1, (w_lit c).2.2.2.1, (w_lit c).2.2.2.2.1, (w_lit c).2.2.2.2.2, (iw_lit c).1, (iw_lit c).2.1, (iw_lit c).2.2.1, (iw_lit c).2.2.2.1, (iw_lit c).2.2.2.2.1, (iw_lit c).2.2.2.2.2] <;> (first | ring1 | mandel_ring $h))
-        | (rcases w_iw_cases c J with ⟨f1, f2⟩ | ⟨f1, f2⟩ <;>
-             simp only [f1, f2, (w_lit c).1, (w_lit c).2.1, (w_lit c).2.2.1, (w_lit c).2.2.2.1, (w_lit c).2.2.2.2.1, (w_lit c).2.2.2.2.2, (iw_lit c).1, (iw_lit c).2.1, (iw_lit c).2.2.1, (iw_lit c).2.2.2.1, (iw_lit c).2.2.2.2.1, (iw_lit c).2.2.2.2.2] <;> (first | ring1 | mandel_ring $h))))
+      try simp only [vi, ti]))
+macro "rep_mat_TT" h:term : tactic => `(tactic| (funext I J; rep_start $h; first | rfl | ring1))
+macro "rep_mat_SS" h:term : tactic =>
+  `(tactic| (funext I J
+             rep_start $h
+             rcases w_iw_cases c I with ⟨e1, e2⟩ | ⟨e1, e2⟩ <;> rcases w_iw_cases c J with ⟨f1, f2⟩ | ⟨f1, f2⟩ <;>
+               simp only [e1, e2, f1, f2, (w_lit c).1, (w_lit c).2.1, (w_lit c).2.2.1, (w_lit c).2.2.2.1, (w_lit c).2.2.2.2.1, (w_lit c).2.2.2.2.2, (iw_lit c).1, (iw_lit c).2.1, (iw_lit c).2.2.1, (iw_lit c).2.2.2.1, (iw_lit c).2.2.2.2.1, (iw_lit c).2.2.2.2.2] <;> (first | ring1 | mandel_ring $h)))
+macro "rep_mat_ST" h:term : tactic =>
+  `(tactic| (funext I J
+             rep_start $h
+             rcases w_iw_cases c I with ⟨e1, e2⟩ | ⟨e1, e2⟩ <;>
+               simp only [e1, e2, (w_lit c).1, (w_lit c).2.1, (w_lit c).2.2.1, (w_lit c).2.2.2.1, (w_lit c).2.2.2.2.1, (w_lit c).2.2.2.2.2, (iw_lit c).1, (iw_lit c).2.1, (iw_lit c).2.2.1, (iw_lit c).2.2.2.1, (iw_lit c).2.2.2.2.1, (iw_lit c).2.2.2.2.2] <;> (first | ring1 | mandel_ring $h)))
+macro "rep_mat_TS" h:term : tactic =>
+  `(tactic| (funext I J
+             rep_start $h
+             rcases w_iw_cases c J with ⟨f1, f2⟩ | ⟨f1, f2⟩ <;>
+               simp only [f1, f2, (w_lit c).1, (w_lit c).2.1, (w_lit c).2.2.1, (w_lit c).2.2.2.1, (w_lit c).2.2.2.2.1, (w_lit c).2.2.2.2.2, (iw_lit c).1, (iw_lit c).2.1, (iw_lit c).2.2.1, (iw_lit c).2.2.2.1, (iw_lit c).2.2.2.2.1, (iw_lit c).2.2.2.2.2] <;> (first | ring1 | mandel_ring $h)))
 
 theorem stoST_comp_ST_ST (a b : Fin 6 → Fin 6 → K) :
-    T4.stoST c (T4.comp (T4.ofST c a) (T4.ofST c b)) = fun I J => sumS fun L => a I L * b L J := by rep_mat hc
+    T4.stoST c (T4.comp (T4.ofST c a) (T4.ofST c b)) = fun I J => sumS fun L => a I L * b L J := by rep_mat_SS hc
 theorem stoST_comp_TS_S2T (a : Fin 6 → Fin 9 → K) (b : Fin 9 → Fin 6 → K) :
-    T4.stoST c (T4.comp (T4.ofTS c a) (T4.ofS2T c b)) = fun I J => sumT fun L => a I L * b L J := by rep_mat hc
+    T4.stoST c (T4.comp (T4.ofTS c a) (T4.ofS2T c b)) = fun I J => sumT fun L => a I L * b L J := by rep_mat_SS hc
 theorem stoTT_comp_TT_TT (a b : Fin 9 → Fin 9 → K) :
-    T4.stoTT (T4.comp (T4.ofTT a) (T4.ofTT b)) = fun I J => sumT fun L => a I L * b L J := by rep_mat hc
+    T4.stoTT (T4.comp (T4.ofTT a) (T4.ofTT b)) = fun I J => sumT fun L => a I L * b L J := by rep_mat_TT hc
 theorem stoTT_comp_S2T_TS (a : Fin 9 → Fin 6 → K) (b : Fin 6 → Fin 9 → K) :
-    T4.stoTT (T4.comp (T4.ofS2T c a) (T4.ofTS c b)) = fun I J => sumS fun L => a I L * b L J := by rep_mat hc
+    T4.stoTT (T4.comp (T4.ofS2T c a) (T4.ofTS c b)) = fun I J => sumS fun L => a I L * b L J := by rep_mat_TT hc
 theorem stoTS_comp_ST_TS (a : Fin 6 → Fin 6 → K) (b : Fin 6 → Fin 9 → K) :
-    T4.stoTS c (T4.comp (T4.ofST c a) (T4.ofTS c b)) = fun I J => sumS fun L => a I L * b L J := by rep_mat hc
+    T4.stoTS c (T4.comp (T4.ofST c a) (T4.ofTS c b)) = fun I J => sumS fun L => a I L * b L J := by rep_mat_ST hc
 theorem stoTS_comp_TS_TT (a : Fin 6 → Fin 9 → K) (b : Fin 9 → Fin 9 → K) :
-    T4.stoTS c (T4.comp (T4.ofTS c a) (T4.ofTT b)) = fun I J => sumT fun L => a I L * b L J := by rep_mat hc
+    T4.stoTS c (T4.comp (T4.ofTS c a) (T4.ofTT b)) = fun I J => sumT fun L => a I L * b L J := by rep_mat_ST hc
 theorem stoS2T_comp_TT_S2T (a : Fin 9 → Fin 9 → K) (b : Fin 9 → Fin 6 → K) :
-    T4.stoS2T c (T4.comp (T4.ofTT a) (T4.ofS2T c b)) = fun I J => sumT fun L => a I L * b L J := by rep_mat hc
+    T4.stoS2T c (T4.comp (T4.ofTT a) (T4.ofS2T c b)) = fun I J => sumT fun L => a I L * b L J := by rep_mat_TS hc
 theorem stoS2T_comp_S2T_ST (a : Fin 9 → Fin 6 → K) (b : Fin 6 → Fin 6 → K) :
-    T4.stoS2T c (T4.comp (T4.ofS2T c a) (T4.ofST c b)) = fun I J => sumS fun L => a I L * b L J := by rep_mat hc
+    T4.stoS2T c (T4.comp (T4.ofS2T c a) (T4.ofST c b)) = fun I J => sumS fun L => a I L * b L J := by rep_mat_TS hc
 
 theorem st_app_ST (a : Fin 6 → Fin 6 → K) (s : Fin 6 → K) :
     T2.st c (T4.app (T4.ofST c a) (T2.ofSt c s)) = vecS fun I => sumS fun L => a I L * s L := by rep_vec hc
@@ -239,15 +247,15 @@ theorem st_appL_S2T (x : Fin 9 → K) (a : Fin 9 → Fin 6 → K) :
     T2.st c (T4.appL (T2.ofTens x) (T4.ofS2T c a)) = vecS fun J => sumT fun L => x L * a L J := by rep_vec hc
 
 theorem stoST_transpose (a : Fin 6 → Fin 6 → K) :
-    T4.stoST c (T4.transpose (T4.ofST c a)) = fun I J => a J I := by rep_mat hc
+    T4.stoST c (T4.transpose (T4.ofST c a)) = fun I J => a J I := by rep_mat_SS hc
 theorem stoST_dyad (s t : Fin 6 → K) :
-    T4.stoST c (T2.dyad (T2.ofSt c s) (T2.ofSt c t)) = fun I J => s I * t J := by rep_mat hc
+    T4.stoST c (T2.dyad (T2.ofSt c s) (T2.ofSt c t)) = fun I J => s I * t J := by rep_mat_SS hc
 theorem stoTT_dyad (x y : Fin 9 → K) :
-    T4.stoTT (T2.dyad (T2.ofTens x) (T2.ofTens y)) = fun I J => x I * y J := by rep_mat hc
+    T4.stoTT (T2.dyad (T2.ofTens x) (T2.ofTens y)) = fun I J => x I * y J := by rep_mat_TT hc
 theorem stoTS_dyad (s : Fin 6 → K) (x : Fin 9 → K) :
-    T4.stoTS c (T2.dyad (T2.ofSt c s) (T2.ofTens x)) = fun I J => s I * x J := by rep_mat hc
+    T4.stoTS c (T2.dyad (T2.ofSt c s) (T2.ofTens x)) = fun I J => s I * x J := by rep_mat_ST hc
 theorem stoS2T_dyad (x : Fin 9 → K) (s : Fin 6 → K) :
-    T4.stoS2T c (T2.dyad (T2.ofTens x) (T2.ofSt c s)) = fun I J => x I * s J := by rep_mat hc
+    T4.stoS2T c (T2.dyad (T2.ofTens x) (T2.ofSt c s)) = fun I J => x I * s J := by rep_mat_TS hc
 end representation
 
 /-- `Q(R) : C : Q(Rᵀ)` with `Q(R) = rot R` is the index formula `R_mi R_nj R_pk R_ql C_mnpq` (what the
